@@ -717,3 +717,25 @@ Definition check_seq (c : list string * list fsent * list sref * bool * list nat
   forallb (lprefixb d) (seq_writes r) &&
   (negb (all_exact (seq_codes r)) ||
    (let v := seq_view d (seq_state r) in sviews_sub v lst && sviews_sub lst v)).
+
+(* ------------------------------------------------------------------ several components staged by ONE process
+   The components of a workflow are staged one after the other by the same process, each into its own working
+   directory, and they reference the same input files — the same archive is extracted into several directories.  The
+   code keeps nothing between two calls: every reference of every component is examined against the directory it is
+   staged INTO (the links that directory holds, the absolute names that are inside it), so a component is
+   (directory, what it holds, stop at the first failure?, references) and the run of a list of components is the run
+   of each over its own directory.  [extract_once] is the design that is NOT the code (round-7 seed C18_m11): an
+   archive that was accepted for some directory is not examined again. *)
+Definition component := (list string * list fsent * bool * list sref)%type.
+Definition comp_dir (c : component) : list string := fst (fst (fst c)).
+Definition stage_component (c : component) := let '(d, st, stop, refs) := c in stage_seq d st stop refs.
+Definition stage_components (cs : list component) := map stage_component cs.
+Definition comp_ok (c : component) : bool := let '(d, st, _, _) := c in gooddir d && real_dir (links_of st) d.
+(* two working directories, neither inside the other *)
+Definition apart (d1 d2 : list string) : bool := negb (lprefixb d1 d2) && negb (lprefixb d2 d1).
+
+(* what the extraction of [ms] into [d] writes when the check is skipped because [ms] passed it for the directory
+   [d0] that held [st0] (otherwise: the checked extraction) *)
+Definition extract_once (d0 : list string) (st0 : list fsent) (d : list string) (st : list fsent) (ms : list member)
+  : list (list string) :=
+  if tar_check_pre (links_of st0) d0 ms then extract_pre (links_of st) d ms else stage_extract_pre (links_of st) d ms.
